@@ -340,13 +340,13 @@ func (p *parserDoer) onEntries(labels [][]string, timestampsNS []int64,
 	}
 
 	for d := range dates {
-		if key, isNew := p.maybeAddFp(d, fp); isNew {
-			p.tsSpl.keys = append(p.tsSpl.keys, key)
-			_labels := encodeLabels(labels)
-			for t, _ := range tps {
-				if !tps[t] {
-					continue
-				}
+		for t, _ := range tps {
+			if !tps[t] {
+				continue
+			}
+			if key, isNew := p.maybeAddFp(d, fp, uint8(t)); isNew {
+				p.tsSpl.keys = append(p.tsSpl.keys, key)
+				_labels := encodeLabels(labels)
 
 				p.tsSpl.ts.MDate = append(p.tsSpl.ts.MDate, d)
 				p.tsSpl.ts.MLabels = append(p.tsSpl.ts.MLabels, _labels)
@@ -510,15 +510,16 @@ func validUTF8Labels(lbls [][]string) [][]string {
 	return lbls
 }
 
-// maybeAddFp tells whether a series row has to be emitted for (date, fp): the pair is not in the
-// cache and this request has not emitted it yet. The cache is not set here: a row that is emitted
+// maybeAddFp tells whether a series row has to be emitted for (date, fp, type): the triple is not in
+// the cache and this request has not emitted it yet. The cache is not set here: a row that is emitted
 // may still fail to be stored, and a cached pair is never emitted again. The returned key is set by
 // the caller of the parser once the row has been stored.
-func (p *parserDoer) maybeAddFp(date time.Time, fp uint64) (uint64, bool) {
+func (p *parserDoer) maybeAddFp(date time.Time, fp uint64, tp uint8) (uint64, bool) {
 	dateTS := date.Unix()
-	var bs [16]byte
+	var bs [17]byte
 	copy(bs[0:8], unsafe.Slice((*byte)(unsafe.Pointer(&dateTS)), 16))
 	copy(bs[8:16], unsafe.Slice((*byte)(unsafe.Pointer(&fp)), 16))
+	bs[16] = tp
 	_fp := city.CH64(bs[:])
 	if p.seenFpKeys[_fp] || p.ctx.fpCache.Has(_fp) {
 		return _fp, false
